@@ -44,11 +44,19 @@ pub struct Twin {
     pub acct1: usize,
     pub lender0: usize,
     pub liquidator0: usize,
+    /// pass-through banks of group 0 / their twins in group 1 (Kamino on mint A, Solend on mint B)
+    pub venue: Option<[usize; 4]>,
 }
 
 /// Two structurally identical groups over the same mints (so that every account of group 0 has a
 /// same-type twin in group 1), a leveraged user with an account in each, a lender and a liquidator.
 pub async fn build_twin(seed: u64, r: &mut R) -> (World, Twin) {
+    build_twin_v(seed, r, false).await
+}
+
+/// `with_venue`: each group additionally gets a Kamino and a Solend pass-through bank (served by
+/// the venue stand-ins) in which the user holds a position.
+pub async fn build_twin_v(seed: u64, r: &mut R, with_venue: bool) -> (World, Twin) {
     let mut w = World::new(seed, 1_700_000_000, FeeCfg { bank_init_fee: 0, liq_flat_fee: pick(r, &[0u32, 5000]), program_fee_fixed: 0.0, program_fee_rate: 0.0, liq_max_fee: 0.0 }).await;
     let g0 = w.add_group().await;
     let g1 = w.add_group().await;
@@ -78,7 +86,25 @@ pub async fn build_twin(seed: u64, r: &mut R) -> (World, Twin) {
     let lender0 = w.add_account(g0, lender).await;
     let lender1 = w.add_account(g1, lender).await;
     let liquidator0 = w.add_account(g0, liq).await;
-    let t = Twin { g0, g1, a0: idx[0], b0: idx[1], a1: idx[2], b1: idx[3], user, acct0, acct1, lender0, liquidator0 };
+    let mut venue = None;
+    if with_venue {
+        let mut vb = [0usize; 4];
+        for (gi, g) in [g0, g1].into_iter().enumerate() {
+            let mut kc = marginfi::state::kamino::KaminoConfigCompact::default();
+            kc.deposit_limit = u64::MAX;
+            kc.total_asset_value_init_limit = 0;
+            kc.oracle_max_age = 600;
+            vb[gi * 2] = w.add_bank_kamino(g, ma, kc, PythPx::simple(1_000_000, -6, now), 1_050_000_000_000, 1_000_000_000_000, 7).await.expect("kamino bank");
+            let mut sc = marginfi::state::solend::SolendConfigCompact::default();
+            sc.deposit_limit = u64::MAX;
+            sc.total_asset_value_init_limit = 0;
+            sc.oracle_max_age = 600;
+            vb[gi * 2 + 1] = w.add_bank_solend(g, mb, sc, PythPx::simple(20_000_000, -6, now), 3_000_000_007, 1_000_000_003, 7).await.expect("solend bank");
+        }
+        // order: [kamino g0, kamino g1, solend g0, solend g1]
+        venue = Some([vb[0], vb[2], vb[1], vb[3]]);
+    }
+    let t = Twin { g0, g1, a0: idx[0], b0: idx[1], a1: idx[2], b1: idx[3], user, acct0, acct1, lender0, liquidator0, venue };
     // liquidity and positions in both groups
     for (l, a, b) in [(lender0, t.a0, t.b0), (lender1, t.a1, t.b1)] {
         let k = w.auth_of(l);
@@ -99,6 +125,16 @@ pub async fn build_twin(seed: u64, r: &mut R) -> (World, Twin) {
         let ten_tokens = 10 * 10u64.pow(w.mint_of_bank(b).decimals as u32);
         let i = w.ix_borrow(acct, b, k.pubkey(), w.ta_of(acct, b), ten_tokens);
         assert!(w.raw_send(&[i], &[&k]).await.ok());
+    }
+    if let Some(vb) = t.venue {
+        let k = w.auth_of(acct0);
+        for (acct, kb, sb) in [(acct0, vb[0], vb[2]), (acct1, vb[1], vb[3])] {
+            for b in [kb, sb] {
+                let i = w.ix_venue_deposit(acct, b, k.pubkey(), w.ta_of(acct, b), 50_000);
+                let o = w.raw_send(&[i], &[&k]).await;
+                assert!(o.ok(), "venue deposit in twin world failed: {}", o.err_string());
+            }
+        }
     }
     // some accrued fees so that collect/withdraw fees have something to move
     w.chain.advance(30 * 86_400);
@@ -165,7 +201,9 @@ pub async fn cases(w: &mut World, t: &Twin) -> Vec<Case> {
         subs.push((5, "vault authority->sibling bank's".into(), kb0.lva));
         subs.push((6, "liquidity vault->sibling bank's vault".into(), kb0.lv));
         subs.push((6, "liquidity vault->insurance vault".into(), ka0.iv));
-        subs.push((n - 1, "debt oracle->other bank's oracle".into(), w.banks[t.a0].oracle.accounts()[0]));
+        let debt_oracle = w.banks[t.b0].oracle.accounts()[0];
+        let slot = i.accounts.iter().rposition(|m| m.pubkey == debt_oracle).unwrap_or(n - 1);
+        subs.push((slot, "debt oracle->other bank's oracle".into(), w.banks[t.a0].oracle.accounts()[0]));
         v.push(Case { name: "withdraw".into(), ixs: vec![i], target: 0, signers: vec![clone_kp(&auth)], signer_key: Some(ak), entitled: vec!["authority"], subs });
     }
     {
@@ -198,6 +236,27 @@ pub async fn cases(w: &mut World, t: &Twin) -> Vec<Case> {
         let i = ix::transfer_account(g0k, acct0k, nk.pubkey(), ak, w.chain.payer.pubkey(), w.user_kp(1).pubkey(), w.fee_wallet.pubkey());
         let subs = vec![(0, "group->foreign group".into(), g1k), (1, "old account->account in foreign group".into(), acct1k), (6, "global fee wallet->stranger".into(), w.user_kp(3).pubkey())];
         v.push(Case { name: "transfer_to_new_account".into(), ixs: vec![i], target: 0, signers: vec![clone_kp(&auth), nk], signer_key: Some(ak), entitled: vec!["authority"], subs });
+    }
+    // ---- pass-through (venue) instructions: same authority rule, bound venue accounts
+    if let Some(vb) = t.venue {
+        for (vname, b_own, b_twin, prog_slot) in [("kamino", vb[0], vb[1], 17usize), ("solend", vb[2], vb[3], 18usize)] {
+            let (bk, bk_twin) = (w.banks[b_own].key, w.banks[b_twin].key);
+            let (vk, vk_twin) = (w.banks[b_own].venue.unwrap(), w.banks[b_twin].venue.unwrap());
+            let sib = w.banks[t.a0].k;
+            let ta = w.ta_of(t.acct0, b_own);
+            let bclone = clone_foreign(w, &bk);
+            for dep in [true, false] {
+                let i = if dep { w.ix_venue_deposit(t.acct0, b_own, ak, ta, 1000) } else { w.ix_venue_withdraw(t.acct0, b_own, ak, ta, 100, None) };
+                let mut subs = user_subs(0, 1, 3, bk_twin, bclone);
+                subs.push((5, "vault authority->sibling bank's".into(), sib.lva));
+                subs.push((6, "liquidity vault->sibling bank's vault".into(), sib.lv));
+                subs.push((7, "venue obligation->foreign group's bank's obligation".into(), vk_twin.obligation));
+                subs.push((10, "venue reserve->foreign group's bank's reserve".into(), vk_twin.reserve));
+                subs.push((prog_slot, "venue program->foreign program".into(), FOREIGN_PROG));
+                let _ = vk;
+                v.push(Case { name: format!("{}_{}", vname, if dep { "deposit" } else { "withdraw" }), ixs: vec![i], target: 0, signers: vec![clone_kp(&auth)], signer_key: Some(ak), entitled: vec!["authority"], subs });
+            }
+        }
     }
     // ---- liquidation family (needs an unhealthy account: done by the caller through a price shock)
     {
@@ -313,6 +372,7 @@ pub async fn cases(w: &mut World, t: &Twin) -> Vec<Case> {
 pub async fn run_c08(w: &mut World, m: &mut Mon, r: &mut R, t: &Twin) {
     let ids = Admin::identities(w, t.g0);
     let (px_a0, px_a1) = (save_price(w, t.a0), save_price(w, t.a1));
+    let px_v = t.venue.map(|vb| (save_price(w, vb[0]), save_price(w, vb[2])));
     let mut all_ids: Vec<(&'static str, Keypair)> = ids;
     all_ids.push(("authority", w.auth_of(t.acct0)));
     all_ids.push(("liquidator", w.auth_of(t.liquidator0)));
@@ -323,6 +383,11 @@ pub async fn run_c08(w: &mut World, m: &mut Mon, r: &mut R, t: &Twin) {
       }
       if phase == 2 {
           scale_price(w, t.a0, 1e-7);
+          if let Some(vb) = t.venue {
+              // bankruptcy needs the whole portfolio worthless, venue collateral included
+              scale_price(w, vb[0], 1e-7);
+              scale_price(w, vb[2], 1e-7);
+          }
       }
       let cs = cases(w, t).await;
       for c in cs {
@@ -402,6 +467,10 @@ pub async fn run_c08(w: &mut World, m: &mut Mon, r: &mut R, t: &Twin) {
       }
     }
     restore_price(w, t.a0, px_a0);
+    if let (Some(vb), Some((p0, p2))) = (t.venue, px_v) {
+        restore_price(w, vb[0], p0);
+        restore_price(w, vb[2], p2);
+    }
     // frozen account: only the group admin may act; every other identity (authority included) is refused
     let admin = clone_kp(&w.groups[t.g0].admin);
     let i = ix::set_freeze(w.groups[t.g0].key, w.accts[t.acct0].key, admin.pubkey(), true);
@@ -498,14 +567,24 @@ pub async fn run_c14(w: &mut World, m: &mut Mon, r: &mut R, t: &Twin) {
     };
     let (ta_a, ta_b) = (w.ta_of(t.acct0, t.a0), w.ta_of(t.acct0, t.b0));
     let ops = |w: &World| -> Vec<(&'static str, usize, Instruction, Keypair)> {
-        vec![
+        let mut v = vec![
             ("deposit", t.a0, w.ix_deposit(t.acct0, t.a0, ak, ta_a, 10, None), clone_kp(&auth)),
             ("withdraw", t.a0, w.ix_withdraw(t.lender0, t.a0, w.auth_of(t.lender0).pubkey(), w.ta_of(t.lender0, t.a0), 1, None), w.auth_of(t.lender0)),
             ("borrow", t.b0, w.ix_borrow(t.lender0, t.b0, w.auth_of(t.lender0).pubkey(), w.ta_of(t.lender0, t.b0), 10), w.auth_of(t.lender0)),
             ("repay", t.b0, w.ix_repay(t.acct0, t.b0, ak, ta_b, 10, None), clone_kp(&auth)),
             ("liquidate(asset bank)", t.a0, w.ix_liquidate(t.liquidator0, t.acct0, t.a0, t.b0, lk.pubkey(), 1000), clone_kp(&lk)),
             ("liquidate(debt bank)", t.b0, w.ix_liquidate(t.liquidator0, t.acct0, t.a0, t.b0, lk.pubkey(), 1000), clone_kp(&lk)),
-        ]
+        ];
+        if let Some(vb) = t.venue {
+            // pass-through banks: the lender (healthy, no debt) acts so that withdraw has a control
+            let lkp = w.auth_of(t.lender0);
+            for (dn, wn, b) in [("kamino_deposit", "kamino_withdraw", vb[0]), ("solend_deposit", "solend_withdraw", vb[2])] {
+                let ta = w.ta_of(t.lender0, b);
+                v.push((dn, b, w.ix_venue_deposit(t.lender0, b, lkp.pubkey(), ta, 1000), clone_kp(&lkp)));
+                v.push((wn, b, w.ix_venue_withdraw(t.lender0, b, lkp.pubkey(), ta, 10, None), clone_kp(&lkp)));
+            }
+        }
+        v
     };
     // lender0 must not hold a deposit in b0 for the borrow cell: use withdraw-all first
     {
@@ -513,6 +592,13 @@ pub async fn run_c14(w: &mut World, m: &mut Mon, r: &mut R, t: &Twin) {
         let i = w.ix_withdraw(t.lender0, t.b0, k.pubkey(), w.ta_of(t.lender0, t.b0), 0, Some(true));
         let _ = w.exec(m, &[i], &[&k]).await;
         // keep liquidity in b0 through the liquidator's deposit
+    }
+    if let Some(vb) = t.venue {
+        let k = w.auth_of(t.lender0);
+        for b in [vb[0], vb[2]] {
+            let i = w.ix_venue_deposit(t.lender0, b, k.pubkey(), w.ta_of(t.lender0, b), 100_000);
+            let _ = w.exec(m, &[i], &[&k]).await;
+        }
     }
     for (name, bank, _, _) in ops(w) {
         // positive control in Operational state
@@ -538,7 +624,7 @@ pub async fn run_c14(w: &mut World, m: &mut Mon, r: &mut R, t: &Twin) {
             m.r.distinct(&("cell", name, st as u8, o.ok()));
             // the per-instruction monitor flags forbidden acceptances; the table also demands that
             // withdraw / repay keep working on a reduce-only bank
-            if st == BankOperationalState::ReduceOnly && matches!(name, "withdraw" | "repay" | "liquidate(asset bank)" | "liquidate(debt bank)") && !o.ok() {
+            if st == BankOperationalState::ReduceOnly && matches!(name, "withdraw" | "repay" | "liquidate(asset bank)" | "liquidate(debt bank)" | "kamino_withdraw" | "solend_withdraw") && !o.ok() {
                 m.r.violate("C14", &format!("C14/matrix/{}/rejected-on-reduce-only-bank", name), o.err_string());
             }
             let i = set_state(w.banks[bank].key, BankOperationalState::Operational);
@@ -603,14 +689,23 @@ pub async fn run_c14(w: &mut World, m: &mut Mon, r: &mut R, t: &Twin) {
         }
         let _ = w.exec(m, &[prop.clone()], &[]).await;
         let users_ops = |w: &World| -> Vec<(Instruction, Keypair)> {
-            vec![
+            let mut v = vec![
                 (dep(w), clone_kp(&auth)),
                 (w.ix_withdraw(t.acct0, t.a0, ak, ta_a, 1, None), clone_kp(&auth)),
                 (w.ix_repay(t.acct0, t.b0, ak, ta_b, 3, None), clone_kp(&auth)),
                 (w.ix_borrow(t.acct0, t.b0, ak, ta_b, 1), clone_kp(&auth)),
                 (w.ix_collect_fees(t.b0), clone_kp(&auth)),
                 (w.ix_liquidate(t.liquidator0, t.acct0, t.a0, t.b0, lk.pubkey(), 10), clone_kp(&lk)),
-            ]
+            ];
+            if let Some(vb) = t.venue {
+                let lkp = w.auth_of(t.lender0);
+                for b in [vb[0], vb[2]] {
+                    let ta = w.ta_of(t.lender0, b);
+                    v.push((w.ix_venue_deposit(t.lender0, b, lkp.pubkey(), ta, 500), clone_kp(&lkp)));
+                    v.push((w.ix_venue_withdraw(t.lender0, b, lkp.pubkey(), ta, 5, None), clone_kp(&lkp)));
+                }
+            }
+            v
         };
         for dt in [0i64, 1, 1799] {
             w.chain.set_time(t0 + dt);
